@@ -125,23 +125,26 @@ def run (ops : List (Op H)) : Pool H := ops.foldl step []
 
 end
 
-/-! ### Server level: admission is check-then-act (txnpool/proc)
+/-! ### Server level: admission bookkeeping of txnpool/proc, by counts
 
-`TxActor.handleTransaction` (one actor, one message at a time) tests `pool count < C`, then takes one of `L`
-slots (blocking), then hands the transaction to a worker; the worker adds it to the pool when both validators
-have answered (`putTxPool`: `addTxList` then `removePendingTx`, which gives a slot back when fewer than `L`
-transactions are pending). `C = MAX_CAPACITY`, `L = MAX_LIMITATION`. Only counts are modelled. -/
+`TxActor.handleTransaction` (one actor, one message at a time) reads the pending count, then the pool count, and
+admits when `pending + pool < C`; it then takes one of `L` slots (blocking) and hands the transaction to a worker;
+the worker adds it to the pool when both validators have answered (`putTxPool`: `addTxList`, then
+`removePendingTx`, which gives a slot back when fewer than `L` transactions are pending).
+`C = MAX_CAPACITY`, `L = MAX_LIMITATION`. The two reads of the capacity test are separate steps. -/
 
 structure Srv where
   pool : Nat        -- entries in the TXPool
   flying : Nat      -- admitted, pending, not yet added to the pool
   landed : Nat      -- added to the pool, still in allPendingTxs (between addTxList and removePendingTx)
   other : Nat       -- pending transactions that took no slot (re-verification, block verification)
+  limbo : Nat       -- taken out of the pool for re-verification, not yet in allPendingTxs
   slots : Nat       -- tokens in the `slots` channel
+  snap : Option Nat -- the actor has read the pending count and not yet the pool count
   passed : Bool     -- the actor has passed the capacity test and is waiting for / about to take a slot
 deriving DecidableEq, Repr
 
-def Srv.init (L : Nat) : Srv := ⟨0, 0, 0, 0, L, false⟩
+def Srv.init (L : Nat) : Srv := ⟨0, 0, 0, 0, 0, L, none, false⟩
 
 def Srv.pending (s : Srv) : Nat := s.flying + s.landed + s.other
 
@@ -152,8 +155,12 @@ def Srv.refill (L : Nat) (s : Srv) : Srv :=
 /-- Steps of the admission fragment: what `handleTransaction` + workers do, plus block clean-up without
 re-verification (`disablePreExec = true`). -/
 inductive AStep (C L : Nat) : Srv → Srv → Prop
-  /-- capacity test succeeds -/
-  | check (s : Srv) : s.passed = false → s.pool < C → AStep C L s { s with passed := true }
+  /-- `getPendingListSize()` -/
+  | snapshot (s : Srv) : s.passed = false → s.snap = none → AStep C L s { s with snap := some s.pending }
+  /-- `+ getTransactionCount() >= MAX_CAPACITY` is false: admitted -/
+  | checkOk (s : Srv) (q : Nat) : s.snap = some q → q + s.pool < C → AStep C L s { s with snap := none, passed := true }
+  /-- pool full: refused -/
+  | checkFull (s : Srv) (q : Nat) : s.snap = some q → ¬ q + s.pool < C → AStep C L s { s with snap := none }
   /-- `<-slots` then `assignTxToWorker` (new hash) -/
   | take (s : Srv) : s.passed = true → 0 < s.slots →
       AStep C L s { s with passed := false, slots := s.slots - 1, flying := s.flying + 1 }
@@ -170,22 +177,96 @@ inductive AStep (C L : Nat) : Srv → Srv → Prop
   /-- `CleanTransactionList` removes `k` included entries -/
   | clean (s : Srv) (k : Nat) : k ≤ s.pool → AStep C L s { s with pool := s.pool - k }
 
-/-- Full step relation: additionally the paths that move pool entries back to pending without a slot
-(`Remain` + `reVerifyStateful` after every saved block unless pre-execution is disabled; stale entries met by
-`getTxPool`) and the completion of such a re-verification. -/
-inductive FStep (C L : Nat) : Srv → Srv → Prop
-  | adm (s t : Srv) : AStep C L s t → FStep C L s t
-  /-- `k` pool entries are taken out for stateful re-verification -/
-  | reverify (s : Srv) (k : Nat) : k ≤ s.pool → FStep C L s { s with pool := s.pool - k, other := s.other + k }
-  /-- `verifyBlock`: `k` transactions of a proposed block that are not in the pool go to the workers (no capacity
-  test, no slot) -/
-  | block (s : Srv) (k : Nat) : FStep C L s { s with other := s.other + k }
-  /-- a re-verified / block-verified transaction is added (back) and leaves the pending list -/
+/-- Re-verification traffic: `cleanTransactionList` with pre-execution enabled calls `Remain()` (the whole pool is
+removed at once) and then `reVerifyStateful` for each transaction (it enters `allPendingTxs` one by one);
+`getTxPool` does the same for each stale entry it met. Completion adds the transaction back. -/
+inductive RStep (C L : Nat) : Srv → Srv → Prop
+  | adm (s t : Srv) : AStep C L s t → RStep C L s t
+  /-- `Remain()` -/
+  | remain (s : Srv) : RStep C L s { s with limbo := s.limbo + s.pool, pool := 0 }
+  /-- `delTransaction` of one stale entry -/
+  | stale (s : Srv) : 0 < s.pool → RStep C L s { s with pool := s.pool - 1, limbo := s.limbo + 1 }
+  /-- `reVerifyStateful`: `setPendingTx` -/
+  | requeue (s : Srv) : 0 < s.limbo → RStep C L s { s with limbo := s.limbo - 1, other := s.other + 1 }
+  /-- a re-verified transaction is added back and leaves the pending list -/
   | back (s : Srv) : 0 < s.other →
-      FStep C L s (Srv.refill L { s with other := s.other - 1, pool := s.pool + 1 })
+      RStep C L s (Srv.refill L { s with other := s.other - 1, pool := s.pool + 1 })
+
+/-- Full step relation: additionally `verifyBlock` sends the transactions of a proposed block that are not in the
+pool to the workers (no capacity test, no slot); they are added when verified (as `back`). -/
+inductive FStep (C L : Nat) : Srv → Srv → Prop
+  | re (s t : Srv) : RStep C L s t → FStep C L s t
+  | block (s : Srv) (k : Nat) : FStep C L s { s with other := s.other + k }
 
 inductive Reach {σ : Type} (r : σ → σ → Prop) (i : σ) : σ → Prop
   | init : Reach r i i
   | step (s t : σ) : Reach r i s → r s t → Reach r i t
+
+/-! ### Executable steps and the macro-steps observed on the real server (quiescent points) -/
+
+def doSnapshot (s : Srv) : Option Srv :=
+  if s.passed = false ∧ s.snap = none then some { s with snap := some s.pending } else none
+
+/-- second half of the capacity test (admit or refuse) -/
+def doCheck (C : Nat) (s : Srv) : Option Srv :=
+  match s.snap with
+  | some q => if q + s.pool < C then some { s with snap := none, passed := true } else some { s with snap := none }
+  | none => none
+
+def doTake (s : Srv) : Option Srv :=
+  if s.passed = true ∧ 0 < s.slots then some { s with passed := false, slots := s.slots - 1, flying := s.flying + 1 }
+  else none
+
+def doLand (s : Srv) : Option Srv :=
+  if 0 < s.flying then some { s with flying := s.flying - 1, landed := s.landed + 1, pool := s.pool + 1 } else none
+
+def doRelease (L : Nat) (s : Srv) : Option Srv :=
+  if 0 < s.landed then some (Srv.refill L { s with landed := s.landed - 1 }) else none
+
+def doRemain (s : Srv) : Option Srv := some { s with limbo := s.limbo + s.pool, pool := 0 }
+
+def doRequeue (s : Srv) : Option Srv :=
+  if 0 < s.limbo then some { s with limbo := s.limbo - 1, other := s.other + 1 } else none
+
+def doBack (L : Nat) (s : Srv) : Option Srv :=
+  if 0 < s.other then some (Srv.refill L { s with other := s.other - 1, pool := s.pool + 1 }) else none
+
+def doBlock (k : Nat) (s : Srv) : Option Srv := some { s with other := s.other + k }
+
+/-- take the step when its guard holds, else stay -/
+def orStay (f : Srv → Option Srv) (s : Srv) : Srv := (f s).getD s
+
+def iter (n : Nat) (f : Srv → Srv) (s : Srv) : Srv :=
+  match n with
+  | 0 => s
+  | n + 1 => iter n f (f s)
+
+/-- one `TxReq` handled by the actor: the two reads of the capacity test, then the slot (the actor stays blocked
+when none is free) -/
+def submitOne (C : Nat) (s : Srv) : Srv := orStay doTake (orStay (doCheck C) (orStay doSnapshot s))
+
+/-- `k` submissions while the validators hold their answers -/
+def submitHeld (C k : Nat) (s : Srv) : Srv := iter k (submitOne C) s
+
+/-- one in-flight transaction completes (`addTxList`, `removePendingTx`); a blocked actor then takes the freed slot -/
+def completeOne (L : Nat) (s : Srv) : Srv := orStay doTake (orStay (doRelease L) (orStay doLand s))
+
+/-- the validators answer everything that is in flight -/
+def releaseAll (L : Nat) (s : Srv) : Srv := iter (s.flying + 2) (completeOne L) s
+
+/-- `n` submissions with answering validators, one after the other -/
+def fill (C L n : Nat) (s : Srv) : Srv := iter n (fun t => completeOne L (submitOne C t)) s
+
+/-- a saved block with pre-execution enabled, observed after `cleanTransactionList` returned: the whole pool is
+pending for stateful re-verification -/
+def reverifyAll (s : Srv) : Srv :=
+  let t := orStay doRemain s
+  iter t.limbo (orStay doRequeue) t
+
+/-- all re-verifications / block verifications complete -/
+def backAll (L : Nat) (s : Srv) : Srv := iter s.other (orStay (doBack L)) s
+
+/-- `verifyBlock` with `k` transactions that are not in the pool, validators answering -/
+def blockVerified (L k : Nat) (s : Srv) : Srv := backAll L (orStay (doBlock k) s)
 
 end Poly.Model.Pool
